@@ -171,9 +171,19 @@ Fixpoint dec_hist (ops : list TrackerSpec.op) (o : list bytes) : option (list (L
       end
   end.
 
+(* the search tries candidates in list order: sorted by return stamp, its first choice is almost
+   always the order in which the mutex was taken (a heuristic only: the verdict does not depend
+   on the order of the list, see C14_checker_sound) *)
+Fixpoint ins_by_ret (c : LinCheck.hcall TrackerSpec.op (list bytes)) (l : list (LinCheck.hcall TrackerSpec.op (list bytes))) :=
+  match l with
+  | [] => [c]
+  | d :: l' => if (LinCheck.h_ret c <=? LinCheck.h_ret d) then c :: l else d :: ins_by_ret c l'
+  end.
+Definition sort_by_ret (l : list (LinCheck.hcall TrackerSpec.op (list bytes))) := fold_right ins_by_ret [] l.
+
 Definition conc_ok (c : c14conc) (o : list bytes) : bool :=
   match dec_hist (concat (cn_progs c)) o with
-  | Some h => TrackerC14.C14_conc_ok (cn_me c) (cn_setup c) h
+  | Some h => TrackerC14.C14_conc_ok (cn_me c) (cn_setup c) (sort_by_ret h)
   | None => false
   end.
 
